@@ -308,3 +308,15 @@ VARIANTS = V
 
 add("C16", "sy cache written symmetrically", "nifty/cl/minimization/descent_minimizers.py", "            self.sy[kmi, k1] = self.s[kmi].s_vdot(self.y[k1])", "            self.sy[kmi, k1] = self.sy[k1, kmi] = self.s[kmi].s_vdot(self.y[k1])", "R16.3")
 VARIANTS = V
+
+add("C29", "generic generator applies the transposed amplitude", GMP, "    in_ax = (None if len(diffamp.shape) == 2 else 0, 0)\n    res = vmap(jnp.matmul, in_ax, 0)(diffamp, xi)\n",
+    "    if len(diffamp.shape) == 2:\n        res = jnp.matmul(xi, diffamp)\n    else:\n        res = vmap(jnp.matmul, (0, 0), 0)(diffamp, xi)\n", "R29.4")
+add("C29", "wiener sigma pulled out of the running sum", GMP, "    amp = jnp.sqrt(dt) * sigma\n    return jnp.cumsum(jnp.concatenate((jnp.atleast_1d(x0).flatten(), amp * xi)))",
+    "    x0 = jnp.atleast_1d(x0).flatten()\n    walk = sigma * jnp.cumsum(jnp.sqrt(dt) * xi)\n    return jnp.concatenate((x0, x0 + walk))", "R29.1")
+add("C29", "OU small-step branch with half the variance", GMP, "    amp = sigma * jnp.sqrt(1.0 - drift**2)", "    amp = sigma * jnp.sqrt(jnp.where(gamma * dt < 1e-3, gamma * dt, 1.0 - drift**2))", "R29.2")
+VARIANTS = V
+
+add("C35", "LOS stride uses the wrong extent", "nifty/cl/library/los_response.py", "        inc[i] = inc[i+1]*shp[i+1]", "        inc[i] = inc[i+1]*shp[i]", "R35.5")
+add("C30", "uniform shortcut for every unit-width interval", SDP, "        and a_min == 0.0\n        and a_max == 1.0\n", "        and a_max - a_min == 1.0\n", "R30.1")
+add("C30", "inverse gamma prior class drops loc", "nifty/re/prior.py", "call = invgamma_prior(self.a, self.scale, self.loc, self.step)", "call = invgamma_prior(self.a, self.scale, step=self.step)", "R30.1")
+VARIANTS = V
